@@ -8,6 +8,7 @@ fn main() {
         let body = &v["replay"];
         let reproduced = match prop.as_str() {
             "C07" => c07::replay(body),
+            "C01" | "C03" => c01::replay(body),
             _ => { eprintln!("no replay for {prop}"); false }
         };
         println!("reproduced={reproduced}");
@@ -21,6 +22,7 @@ fn main() {
     std::fs::create_dir_all(outdir).unwrap();
     match prop.as_str() {
         "C07" => c07::main(tier, seed, outdir),
+        "C01" => c01::main(tier, seed, outdir),
         _ => { eprintln!("unknown property {prop}"); std::process::exit(2); }
     }
 }
